@@ -3,7 +3,8 @@
    formats (JUnit XML, `go test -v` output), Please reports the same test cases with the same outcome counts.  A test
    target is reported as passing exactly when every case passed or was skipped within its flakiness allowance."
    This file holds only the statement, the property theorems and their non-vacuity examples. *)
-From PlzV Require Import Base.Harness Model.C26 Proof.C26.
+From PlzV Require Import Base.Harness Model.C26 Proof.C26 Proof.C26_followup.
+From Coq Require Import Permutation.
 
 Definition C26_statement : Prop :=
   (* the same outcome counts: every case is counted under exactly one of passed / flake / failed / errored / skipped *)
@@ -32,7 +33,10 @@ Definition C26_statement : Prop :=
   (* an attempt whose exit status agrees with its results (non-zero iff some case neither passed nor was skipped)
      is reported as exactly the cases it wrote *)
   /\ (forall name d ds r, parse_results (d :: ds) [] = Some r ->
-        parse_output name false (negb (all_succeeded r)) (d :: ds) = r).
+        parse_output name false (negb (all_succeeded r)) (d :: ds) = r)
+  (* a second `plz test` of an unchanged target (nothing is re-run) reports the same outcome counts *)
+  /\ (forall name no n atts,
+        counters (fst (second_report name no n atts)) = counters (first_report name no n atts)).
 
 (* The unchanged code violates the statement: a case that passed twice is counted as passed AND as a flake. *)
 Theorem C26_refuted : ~ C26_statement.
@@ -52,7 +56,34 @@ Theorem C26_partial : partial_statement.
 Proof. exact partial_statement_holds. Qed.
 Print Assumptions C26_partial.
 
+(* Follow-up: TestSuite.Add keys a case by the PAIR (name, classname): two cases with different pairs are never
+   merged (whatever their joined form is), every execution reported under a case was written under the same pair,
+   and the tests reported for a target are exactly the distinct pairs written in the executed attempts.  The cached
+   path: what a second invocation reports from the stored results succeeded entirely, invents no case, and equals
+   the first report (all counters) when the first attempt passed with distinct pairs; a re-run repeats the first
+   report; the stored file is read whatever its name, a results directory in an order that does not matter. *)
+Theorem C26_partial_followup : followup_statement.
+Proof. exact followup_statement_holds. Qed.
+Print Assumptions C26_partial_followup.
+
 (* Non-vacuity. *)
+Example C26_nonvacuous_pairs :
+  joined w_join_a = joined w_join_b /\ key w_join_a <> key w_join_b
+  /\ add_all [] [w_join_a; w_join_b] = [w_join_a; w_join_b]
+  /\ target_passes 1 [[w_join_a; w_join_b]] = false
+  /\ counters (target_results 1 [[w_join_a; w_join_b]]) = [2; 1; 0; 1; 0; 0]%N.
+Proof. exact joined_collision. Qed.
+
+Example C26_nonvacuous_cached :
+  let a := mkAttempt false [DXml [XSuite (XS [mkX (s "pkg.Outer") (s "Inner.t") false false false 0 0 0 0;
+                                               mkX (s "pkg.Outer.Inner") (s "t") false false true 0 0 0 0] [])]] in
+  second_report (s "t") false 1 [a] = (first_report (s "t") false 1 [a], true)
+  /\ counters (first_report (s "t") false 1 [a]) = [2; 1; 0; 0; 0; 1]%N
+  /\ snd (second_report (s "t") false 2 w_retry) = true
+  /\ counters (first_report (s "t") false 2 w_retry) = [1; 0; 1; 0; 0; 0]%N
+  /\ counters (fst (second_report (s "t") false 2 w_retry)) = [1; 1; 0; 0; 0; 0]%N.
+Proof. vm_compute. repeat split. Qed.
+
 Example C26_nonvacuous_counts :
   let sx := [mkCase (s "c") (s "a") [ePass]; mkCase (s "c") (s "b") [eFail; ePass]; mkCase (s "c") (s "d") [eFail; eFail];
              mkCase (s "c") (s "e") [eErr]; mkCase (s "c") (s "f") [eSkip]] in
